@@ -36,6 +36,11 @@ CHECKS = {
    text="Exhaustive small-scope enumeration on the real Schedule::new/view_leader: every weight vector over {1,2,3} up to 4 (quick) / 5 (thorough) validators x every non-empty eligible subset x both modes x frequency {0,1,2,3,7}, unit schedule of 10, extreme weights; every view of a 2268-element boundary set; every permutation of the input list. Oracle: no panic, eligible-only, order-independent, equality with an independent reference (own Keccak call, u128 reduction), constant for frequency 0, proportional share over 2000 turns.",
    note="sha3's Keccak-256 and the key byte encoding are trusted by the reference; weights > 3 and > 10 validators are outside the scope.",
    technique="exhaustive bounded enumeration of inputs (all schedules x views of a small scope) on the real code against a reference model"),
+ "C17": dict(
+   category="model_checking", design="DESIGN.md §4 C17, §2.2",
+   text="Stateless exploration on the real scope::run! under the controlled tokio scheduler (vendored tokio 1.45.1 + verif_sched patch: the explorer picks the next runnable task and every select! start branch): every program of a generated family of task trees (3360 programs quick / ~40k thorough: root body x up to 2-3 children, main/background, bodies {Ok, Err, panic, wait-for-cancel then Ok/Err}, a child that spawns a grandchild or runs a nested scope, caller context plain / cancelled while running / deadline passing on the manual clock / already cancelled) x every schedule within deviation bound 2 (quick) / 3 (thorough). Oracle over the event log: run! returns after the last task end; Ok iff nobody failed; otherwise the error of the first failing task in event order; any panic is re-raised (after all tasks ended); an idle scheduler while a cancellation is due (failure, all main tasks done, caller cancelled) is a lost-cancellation deadlock.",
+   note="Task switches only at awaits that return Pending (current-thread runtime); thread-level races inside set_err / guard drops on a multi-thread runtime are not explored. Blocking tasks (spawn_blocking, run_blocking!, wait_blocking) run on real OS threads outside the controlled scheduler: they are oracle-checked on repeated uncontrolled runs and reported separately as sampled, not exhaustive.",
+   technique="stateless model checking of the implementation under a controlled scheduler: exhaustive enumeration of task interleavings (deviation-bounded) for every program of a bounded family, against an event-log reference model"),
 }
 
 def main():
